@@ -398,12 +398,14 @@ fn check_real_times(rep: &mut Report) {
     use crate::drive::{self, CompileOpts, Kind};
     let seqs = real_time_sequences();
     let hosts: Vec<crate::c01::Host> = crate::c01::hosts().into_iter().chain(crate::c01::all_game_hosts()).collect();
-    let items: Vec<(usize, usize)> = (0..hosts.len()).flat_map(|h| (0..seqs.len()).map(move |s| (h, s))).collect();
-    let results = par_map(&items, Some(rep.deadline()), |_, &(h, s)| {
+    // old-format ECL hosts take every sequence twice: in a sub, and in a timeline script (its own instruction format and reader)
+    let items: Vec<(usize, usize, bool)> = (0..hosts.len()).flat_map(|h| { let ecl = hosts[h].tool.kind == Kind::Ecl; (0..seqs.len()).flat_map(move |s| [(h, s, false), (h, s, true)].into_iter().filter(move |x| ecl || !x.2)) }).collect();
+    let results = par_map(&items, Some(rep.deadline()), |_, &(h, s, in_timeline)| {
         let host = &hosts[h];
         let (body, want) = &seqs[s];
-        let src = host.wrap(&format!("{{ {body} }}"));
-        let um = host.user_mapfile();
+        let src = if in_timeline { format!("void sub0() {{ mS(1); }}\nvoid sub1() {{ mS(2); }}\nscript timeline0 {{ {body} }}\n") } else { host.wrap(&format!("{{ {body} }}")) };
+        let mut um = host.user_mapfile();
+        if in_timeline { um += &format!("!timeline_ins_names\n{} m0\n!timeline_ins_signatures\n{} \n", host.op_base, host.op_base); }
         let out = drive::compile(host.tool, src.as_bytes(), &CompileOpts { mapfiles: vec![&um], ..Default::default() });
         let det = |what: String| json!({"family": "real-times", "host": host.name, "body": body, "source": src, "expected_marker_times": want, "what": what});
         if let Some(p) = &out.panic { return ("panic".to_string(), Some(Failure { signature: format!("C13:real:{}", p.signature()), detail: det(p.text.clone()) })); }
@@ -413,13 +415,32 @@ fn check_real_times(rep: &mut Report) {
         let m0 = host.op_base;   // opcode of marker m0
         let instrs: Result<Vec<crate::m2::Instr>, String> = match host.tool.kind {
             Kind::Anm => crate::m2::walk_anm(&bytes, host.tool.game).map(|e| e.get(0).and_then(|e| e.scripts.get(0).map(|s| s.instrs.clone())).unwrap_or_default()),
-            Kind::Ecl => crate::m2::walk_ecl(&bytes, host.tool.game).map(|w| w.subs.get(0).cloned().unwrap_or_default()),
+            Kind::Ecl => crate::m2::walk_ecl(&bytes, host.tool.game).map(|w| if in_timeline { w.timelines.get(0).cloned().unwrap_or_default() } else { w.subs.get(0).cloned().unwrap_or_default() }),
             Kind::Std => crate::m2::walk_std(&bytes, host.tool.game).map(|w| w.script.clone()),
             _ => crate::m2::walk_msg(&bytes, host.tool.game, false).map(|w| w.scripts.get(0).map(|s| s.1.clone()).unwrap_or_default()),
         };
         let instrs = match instrs { Ok(i) => i, Err(e) => return ("unreadable".into(), Some(Failure { signature: format!("C13:real:output-unreadable-by-M2:{}", host.name), detail: det(e) })) };
         let got: Vec<i64> = instrs.iter().filter(|i| i.opcode == m0).map(|i| i.time as i64).collect();
-        if &got == want { ("stored-exactly".into(), None) }
+        if &got == want {
+            // decompile direction on the real reader: the time labels printed for these stored times must give the same
+            // stored times again (recompiled bytes walked by M2)
+            let d = drive::decompile(host.tool, &bytes, &drive::DecompOpts { options: drive::options_from_bits(0), width: 99, mapfiles: vec![&um], display_name: "seed.bin" });
+            if let Some(p) = &d.panic { return ("panic".to_string(), Some(Failure { signature: format!("C13:real:decompile-{}", p.signature()), detail: det(p.text.clone()) })); }
+            let Some(text) = d.text else { return ("DECOMPILE-FAILED".into(), Some(Failure { signature: format!("C13:real:decompile-failed:{}", host.name), detail: det(d.diag.clone()) })) };
+            let image_sources: Vec<&[u8]> = if host.tool.kind == Kind::Anm { vec![&bytes[..]] } else { vec![] };
+            let c2 = drive::compile(host.tool, text.as_bytes(), &CompileOpts { mapfiles: vec![&um], image_sources, ..Default::default() });
+            let det2 = |what: String| json!({"family": "real-times", "host": host.name, "body": body, "source": src, "expected_marker_times": want, "decompiled": text, "what": what});
+            let Some(b2) = c2.bytes else { return ("DECOMPILED-TEXT-REJECTED".into(), Some(Failure { signature: format!("C13:real:decompiled-text-rejected:{}", host.name), detail: det2(c2.diag.clone()) })) };
+            let instrs2: Result<Vec<crate::m2::Instr>, String> = match host.tool.kind {
+                Kind::Anm => crate::m2::walk_anm(&b2, host.tool.game).map(|e| e.get(0).and_then(|e| e.scripts.get(0).map(|s| s.instrs.clone())).unwrap_or_default()),
+                Kind::Ecl => crate::m2::walk_ecl(&b2, host.tool.game).map(|w| if in_timeline { w.timelines.get(0).cloned().unwrap_or_default() } else { w.subs.get(0).cloned().unwrap_or_default() }),
+                Kind::Std => crate::m2::walk_std(&b2, host.tool.game).map(|w| w.script.clone()),
+                _ => crate::m2::walk_msg(&b2, host.tool.game, false).map(|w| w.scripts.get(0).map(|s| s.1.clone()).unwrap_or_default()),
+            };
+            let got2: Vec<i64> = instrs2.unwrap_or_default().iter().filter(|i| i.opcode == m0).map(|i| i.time as i64).collect();
+            if &got2 == want { (if in_timeline { "stored-exactly+labels-reproduce(timeline)" } else { "stored-exactly+labels-reproduce" }.into(), None) }
+            else { ("DECOMPILED-LABELS-GIVE-OTHER-TIMES".into(), Some(Failure { signature: format!("C13:real:decompiled-labels-give-other-times:{}", host.name), detail: det2(format!("times after decompile + recompile {:?}", got2)) })) }
+        }
         else { ("STORED-OTHER-TIME".into(), Some(Failure { signature: format!("C13:real:stored-time-differs:{}", host.name), detail: det(format!("stored marker times {:?}", got)) })) }
     });
     let mut n = 0u64;
